@@ -300,6 +300,13 @@ def layered_part(ck, tier, rng):
             ck.cov["traces_validated_against_impl"] += 1
             for st in beh[:len(steps)]:
                 ck.case(("layered", job["sync"], job["obl_on"], st[0], tuple(map(str, st[1])), json.dumps(st[2])), nontrivial=st[0] != "Init")
+            softs = [s_ for s_ in steps if s_.get("soft")]
+            if softs:
+                b0 = softs[0]
+                ck.violation({"config": "layered", "kind": "thermal_feedback", "what": "surface_temperature_cooling_pair"},
+                             "layered world sync=%s obliquity=%s after %d calls (%s%s): surface temperature / top-layer cooling differ from a freshly built world placed in the same state (%s): the feedback between them is evaluated one step per update, so the pair depends on the order and number of updates" % (
+                                 job["sync"], job["obl_on"], b0["k"], b0["act"], b0["params"], "; ".join("%s got=%s fresh=%s" % (m["what"], str(m.get("got"))[:40], str(m.get("fresh", m.get("keys")))[:40]) for m in b0["soft"][:3])),
+                             {"sync": job["sync"], "obl_on": job["obl_on"], "behaviour": beh[:b0["k"] + 1], "soft": b0["soft"]})
             bad = [s for s in steps if s["mismatch"]]
             if bad:
                 b = bad[0]
